@@ -546,7 +546,7 @@ def run(tier):
         explanation=("Decides the structural clauses for every position and every limit combination at once: exactly one bestmove emission on every path of the search "
                      "thread (one site in iter_deep outside the loop, search() calls iter_deep once, the thread closure calls search() once, one spawn per go); no panic site "
                      "on the spine between thread entry and the emission (bounds, arithmetic, explicit panics, unwrap/expect audited as in C15) so that tiny budgets which cut the "
-                     "first iteration still reach the print; the abort test dominates every recursive call and is repeated after every child (overshoot bounded by one node); "
+                     "first iteration still reach the print; the printed text depends on info.best_move and the root's legal-move list and on no other state (no table entry, no remembered move); the abort test dominates every recursive call and is repeated after every child (overshoot bounded by one node); "
                      "the Go arm does not wait for the search; the depth limit bounds iterations only; the printed move comes from a legality-checked move or from get_legal_moves(). "
                      "Not decided: wall-clock adherence, panic-freedom of the tree walk beyond the spine, legality of the initial pseudo-legal best_ply by value."),
         assumptions=["println! does not fail", "Board::get_legal_moves / is_legal_move are exact (C01)"],
